@@ -240,7 +240,7 @@ def _dump(ctx, nb=40):
 
 
 def run_project(project, strategy="off", gate_seed=0, interrupt_at=None, backend_fault=None, watchdog=30.0,
-                gate_watchdog=10.0, stall=8.0):
+                gate_watchdog=10.0, stall=8.0, builder=None):
     """
     strategy      "off" | "fifo" | "lifo" | "random"   gate controller (obs.schedrec)
     interrupt_at  None | ["get", k]                    KeyboardInterrupt instead of the k-th blocking completed-queue get
@@ -248,6 +248,8 @@ def run_project(project, strategy="off", gate_seed=0, interrupt_at=None, backend
                                                        in-flight tasks held at gates, dispatcher waiting); needs a gate strategy
     backend_fault None | {"k": int, "cls": one of FAULT_CLASSES, "text": str}   the recording backend raises on the k-th (0-based) event
     watchdog      seconds for the WHOLE run; beyond it the case is aborted (state dumped, gates released) with outcome {"hang": true}
+    builder       None (run/build.py: objects built directly) | callable (project, interp) -> (suites, fixture registry), e.g. the
+                  declared route of props/_declrun.py (source + decorators + the real class loader)
     """
     n = project["nb_threads"]
     ctx = _Ctx()
@@ -305,7 +307,7 @@ def run_project(project, strategy="off", gate_seed=0, interrupt_at=None, backend
         namer.register_main()
         interp.main_thread = threading.current_thread()
         try:
-            suites, registry = B.build_project(project, interp)
+            suites, registry = (builder or B.build_project)(project, interp)
             registry.check_dependencies()
             registry.check_fixtures_in_suites(suites)
         except Exception as e:
